@@ -78,7 +78,9 @@ theorem decodeCmd_noType_iff (o : JObj) (p : Nat) (d : List Nat) (f : String) :
       · cases hv : fieldStr (jget o "nameplate") <;> simp [hv] at h
       · cases hv : fieldStr (jget o "nameplate") <;> simp [hv] at h
       · cases hv : fieldStr (jget o "mailbox") <;> simp [hv] at h
-      · split at h <;> simp at h
+      · split at h
+        · split at h <;> simp at h
+        · simp at h
       · split at h <;> simp at h
       · simp at h
 
